@@ -256,6 +256,8 @@ impl Iommu {
 
 impl Aml for Iommu {
     fn to_aml_bytes(&self, sink: &mut dyn AmlSink) {
+        // The device length is a 16-bit field
+        assert!(self.len() <= u16::MAX as usize);
         // Type
         sink.byte(RimtDeviceType::Iommu as u8);
         // Revision
@@ -408,6 +410,8 @@ impl PcieRootComplex {
 
 impl Aml for PcieRootComplex {
     fn to_aml_bytes(&self, sink: &mut dyn AmlSink) {
+        // The device length is a 16-bit field
+        assert!(self.len() <= u16::MAX as usize);
         // Type
         sink.byte(RimtDeviceType::PcieRootComplex as u8);
         // Revision
@@ -470,6 +474,8 @@ impl Platform {
 
 impl Aml for Platform {
     fn to_aml_bytes(&self, sink: &mut dyn AmlSink) {
+        // The device length is a 16-bit field
+        assert!(self.len() <= u16::MAX as usize);
         // Type
         sink.byte(RimtDeviceType::Platform as u8);
         // Revision
